@@ -8,21 +8,12 @@
     Strings are [bytes = list N]; lengths and parsed numbers are [Z]; a panic
     of the contract or of a native is [Fault].  No proofs here.
 
-    Two switches describe the two planned repairs, so that the same model
-    covers the code before and after them:
-      [fix_f10]  checkIPv4: an octet must start with a digit;
-      [fix_f11]  checkIPv6: a group is parsed as [std.Atoi("0"+f, 16)].
-    [shipped] says which behaviour /repo has now; the correspondence check
-    (./check C18) compares the real contract with [shipped]. *)
+    The model describes /repo's working tree after the repairs 0620db8
+    (checkIPv4: an octet must start with a digit, so [std.Atoi10] never sees
+    a sign) and 131c44b (checkIPv6: a group is parsed as
+    [std.Atoi("0"+f, 16)], hence non-negative). *)
 From Verif Require Import Base.Prelude.
 Local Open Scope Z_scope.
-
-Record fixes : Type := Fixes { fix_f10 : bool; fix_f11 : bool }.
-
-(** The behaviour of /repo's working tree.  Flip a field to [true] in the
-    commit that repairs the defect. *)
-Definition shipped : fixes := Fixes false false.
-Definition all_fixed : fixes := Fixes true true.
 
 Definition len {A} (l : list A) : Z := Z.of_nat (length l).
 
@@ -182,30 +173,30 @@ Definition name_accepted (name : bytes) : bool :=
 (** ** IPv4 *)
 
 (** The loop over the four fragments; [Halt None] is [return false]. *)
-Fixpoint ipv4_loop (fx : fixes) (fs : list bytes) : outcome (option (list Z)) :=
+Fixpoint ipv4_loop (fs : list bytes) : outcome (option (list Z)) :=
   match fs with
   | [] => Halt (Some [])
   | f :: fs' =>
       if len f =? 0 then Halt None
-      else if fix_f10 fx && negb (is_digit (nth 0 f 0%N)) then Halt None   (* the F10 repair *)
+      else if negb (is_digit (nth 0 f 0%N)) then Halt None   (* f[0] < '0' || '9' < f[0] *)
       else
         number <-! std_atoi10 f;
         if (number <? 0) || (255 <? number) then Fault                     (* panic("not a byte") *)
         else if (0 <? number) && (nth 0 f 0 =? 48)%N then Halt None
         else if (number =? 0) && (1 <? len f) then Halt None
         else
-          r <-! ipv4_loop fx fs';
+          r <-! ipv4_loop fs';
           Halt (option_map (cons number) r)
   end.
 
-Definition checkIPv4 (fx : fixes) (data : bytes) : outcome bool :=
+Definition checkIPv4 (data : bytes) : outcome bool :=
   let l := len data in
   if (l <? 7) || (15 <? l) then Halt false
   else
     fragments <-! std_string_split data 46;
     if negb (len fragments =? 4) then Halt false
     else
-      r <-! ipv4_loop fx fragments;
+      r <-! ipv4_loop fragments;
       match r with
       | None => Halt false
       | Some numbers =>
@@ -236,14 +227,12 @@ Fixpoint zero_fill (nums : list Z) (j : Z) (n : nat) : outcome (list Z) :=
   | S n' => nums' <-! set_num nums j 0; zero_fill nums' (j + 1) n'
   end.
 
-(** The group parser: [std.Atoi(f, 16)] today, [std.Atoi("0"+f, 16)] after
-    the F11 repair. *)
-Definition parse_group (fx : fixes) (f : bytes) : outcome Z :=
-  if fix_f11 fx then std_atoi16 (48%N :: f) else std_atoi16 f.
+(** The group parser: [std.Atoi("0"+f, 16)]. *)
+Definition parse_group (f : bytes) : outcome Z := std_atoi16 (48%N :: f).
 
 (** The loop [for i, f := range fragments]; [rest] are the fragments from
     index [i] on; [Halt None] is [return false]. *)
-Fixpoint ipv6_loop (fx : fixes) (fragments : list bytes) (l : Z) (rest : list bytes)
+Fixpoint ipv6_loop (fragments : list bytes) (l : Z) (rest : list bytes)
     (i : Z) (hasEmpty : bool) (nums : list Z) : outcome (option (bool * list Z)) :=
   match rest with
   | [] => Halt (Some (hasEmpty, nums))
@@ -254,30 +243,30 @@ Fixpoint ipv6_loop (fx : fixes) (fragments : list bytes) (l : Z) (rest : list by
           if negb (len f1 =? 0) then Halt None
           else
             nums' <-! set_num nums i 0;
-            ipv6_loop fx fragments l rest' (i + 1) hasEmpty nums'
+            ipv6_loop fragments l rest' (i + 1) hasEmpty nums'
         else if i =? l - 1 then
           fp <-! index fragments (i - 1);
           if negb (len fp =? 0) then Halt None
           else
             nums' <-! set_num nums 7 0;
-            ipv6_loop fx fragments l rest' (i + 1) hasEmpty nums'
+            ipv6_loop fragments l rest' (i + 1) hasEmpty nums'
         else if hasEmpty then Halt None
         else
           let endIndex := 9 - l + i in
           nums' <-! zero_fill nums i (Z.to_nat (endIndex - i));
-          ipv6_loop fx fragments l rest' (i + 1) true nums'
+          ipv6_loop fragments l rest' (i + 1) true nums'
       else
         if 4 <? len f then Halt None
         else
-          n <-! parse_group fx f;
+          n <-! parse_group f;
           if 65535 <? n then Fault                      (* panic("fragment overflows uint16") *)
           else
             let idx := if hasEmpty then i + 8 - l else i in
             nums' <-! set_num nums idx n;
-            ipv6_loop fx fragments l rest' (i + 1) hasEmpty nums'
+            ipv6_loop fragments l rest' (i + 1) hasEmpty nums'
   end.
 
-Definition checkIPv6 (fx : fixes) (data : bytes) : outcome bool :=
+Definition checkIPv6 (data : bytes) : outcome bool :=
   let l := len data in
   if (l <? 2) || (39 <? l) then Halt false
   else
@@ -285,7 +274,7 @@ Definition checkIPv6 (fx : fixes) (data : bytes) : outcome bool :=
     let l := len fragments in
     if (l <? 3) || (8 <? l) then Halt false
     else
-      r <-! ipv6_loop fx fragments l fragments 0 false (repeat 0 8);
+      r <-! ipv6_loop fragments l fragments 0 false (repeat 0 8);
       match r with
       | None => Halt false
       | Some (hasEmpty, nums) =>
@@ -303,15 +292,15 @@ Definition checkIPv6 (fx : fixes) (data : bytes) : outcome bool :=
 (** ** checkRecord: the switch on the record type and [panic("invalid record
     data")].  (The name part — tokenIDFromName, ownership — belongs to
     C10-C12.)  recordtype: A = 1, CNAME = 5, SOA = 6, TXT = 16, AAAA = 28. *)
-Definition check_record_data (fx : fixes) (typ : Z) (data : bytes) : outcome unit :=
-  ok <-! (if typ =? 1 then checkIPv4 fx data
+Definition check_record_data (typ : Z) (data : bytes) : outcome unit :=
+  ok <-! (if typ =? 1 then checkIPv4 data
           else if typ =? 5 then
             r <-! safeSplitAndCheck data;
             Halt (match r with Some _ => true | None => false end)
           else if typ =? 16 then Halt (len data <=? maxTXTRecordLength)
-          else if typ =? 28 then checkIPv6 fx data
+          else if typ =? 28 then checkIPv6 data
           else Fault);                                   (* panic("unsupported record type") *)
   if ok then Halt tt else Fault.                         (* panic("invalid record data") *)
 
-Definition record_data_accepted (fx : fixes) (typ : Z) (data : bytes) : bool :=
-  match check_record_data fx typ data with Halt _ => true | Fault => false end.
+Definition record_data_accepted (typ : Z) (data : bytes) : bool :=
+  match check_record_data typ data with Halt _ => true | Fault => false end.
